@@ -71,10 +71,19 @@ def r111(ctx, res, fname, module="calc.angle"):
                               construct=lab + " forwarding")
         else:
             direct[(ta, tb)] = r
+            at = {}
+            for nm in ast.walk(r):
+                if isinstance(nm, ast.Name) and nm.id in fi.params[:2]:
+                    ty = set(map(str, eng.ctx_node_types.get((fi.qual, bound, id(nm)), frozenset())))
+                    if len(ty) == 1:
+                        at[nm.id] = ty.pop()
+            ctx.cache.setdefault("c11.types_at_return", {})[(fname, ta, tb)] = (
+                at.get(fi.params[0], ta), at.get(fi.params[1], tb))
             res.ob("R11.1", fi.where(r), lab, True, "branch `%s`" % txt(r)[:60])
     # symmetry: a mixed pair must be computed by one branch only (the other forwards)
     for ta, tb in (("Line", "Plane"),):
-        both = (ta, tb) in direct and (tb, ta) in direct
+        # (one branch reached from both orders after the arguments were put in a canonical order is still one computation)
+        both = (ta, tb) in direct and (tb, ta) in direct and direct[(ta, tb)] is not direct[(tb, ta)]
         res.ob("R11.1", fi.where(), "%s {%s, %s}" % (fname, ta, tb), not both, "one order forwards to the other")
         if both:
             res.violation("R11.1", fi, direct[(tb, ta)],
@@ -107,7 +116,10 @@ def _classify_predicate(e: ast.AST, fi, ta, tb) -> Optional[str]:
 
 
 def r113_predicates(ctx, res, fname, want_same, fi, direct):
-    for (ta, tb), r in sorted(direct.items()):
+    for (ta0, tb0), r in sorted(direct.items()):
+        ta, tb = ctx.cache.get("c11.types_at_return", {}).get((fname, ta0, tb0), (ta0, tb0))
+        if ta not in KIND or tb not in KIND:
+            raise AnalysisError("%s: operand types %s, %s at `%s`" % (fi.where(r), ta, tb, txt(r)[:40]))
         same = KIND[ta][1] == KIND[tb][1]
         want = want_same if same else ("orth" if want_same == "par" else "par")
         got = _classify_predicate(_resolve_local(fi, r.value), fi, ta, tb)
@@ -316,7 +328,10 @@ def check_acute(ctx, res) -> bool:
 
 def r112_r113_angle(ctx, res, fi, direct):
     acute_ok = check_acute(ctx, res)
-    for (ta, tb), r in sorted(direct.items()):
+    for (ta0, tb0), r in sorted(direct.items()):
+        ta, tb = ctx.cache.get("c11.types_at_return", {}).get((fi.name, ta0, tb0), (ta0, tb0))
+        if ta not in KIND or tb not in KIND:
+            raise AnalysisError("%s: operand types %s, %s at `%s`" % (fi.where(r), ta, tb, txt(r)[:40]))
         lab = "angle(%s, %s)" % (ta, tb)
         iv = _interval(ctx, fi, r.value, acute_ok)
         if iv is None:
